@@ -17,6 +17,11 @@ NUMS = ['0', '1', '2', '3', '10']
 SUFFIXES = ['', 'a', 'b', 'rc1']
 EXTRA = ['02.0', '2.00', '3.0.0.0', '4.0', '2.5', '1.0', '2.0-beta', '3.0 ', '2.0A', '2.0ab', '11', '2.10',
          '2.1', '2.01']
+# suffixes from the ends of the character range and the conventions of other versioning schemes (which mean nothing
+# here: any suffix sorts after none, and suffixes sort as text): on a few number groups only
+ODD_SUFFIXES = ['~', '~rc1', '-', '-rc1', '+b1', '_', ' ', '!', 'A', 'Z', 'z', 'aa', 'a0', 'a.1', 'a1b', u'\u00e9', u'\uffff', 'rc', 'rc10', 'rc2',
+                'dev', 'post1', 'b~', '~~']
+EXTRA += [g + x for g in ('2', '2.0', '3.0', '2.0.1', '10') for x in ODD_SUFFIXES]
 
 
 def universe():
@@ -38,6 +43,10 @@ def core64():
                    ['10'], ['1'], ['0', '10', '0']):
         for s in SUFFIXES:
             u.append('.'.join(groups) + s)
+    # the odd suffixes next to the ordinary ones on the groups that pad to the same numbers
+    for g in ('2', '2.0'):
+        for x in ('~', '~rc1', '-', 'Z', 'z', '!', ' ', 'aa', 'rc10', 'rc2'):
+            u.append(g + x)
     return u
 
 
@@ -161,7 +170,7 @@ def _run_shard(spec, ctx):
             for b in core:
                 for c in core:
                     tri(a, b, c)
-        ctx.count('triples (64-core, exhaustive)', len(core) ** 3)
+        ctx.count('triples (core, exhaustive)', len(core) ** 3)
         r = random.Random(ctx.seed * 1000003 + 77)
         for _ in range(spec['random']):
             tri(r.choice(u), r.choice(u), r.choice(u))
